@@ -30,6 +30,13 @@ type Cfg struct {
 	// Hold: another session keeps the only permit of sender domain src.example
 	// (source concurrency 1) for the whole conversation.
 	Hold bool `json:"hold"`
+	// Harness-only concretisation (the model does not distinguish them):
+	// Buf: buffer mode of the endpoint: "" / "ram", "fs", "autolo" (limit below the
+	// message size), "autohi" (limit above it).
+	// CutPos: where a DATA of class "cut" loses the connection: "" / "mid" (inside
+	// the body), "hdr" (after the header), "zero" (before the first byte).
+	Buf    string `json:"buf"`
+	CutPos string `json:"cutpos"`
 }
 
 // Step is one entry of the behaviour history printed by TLC.
@@ -215,19 +222,36 @@ func message(kind string) []byte {
 	return []byte(b.String())
 }
 
-func dataBody(kind string) ([]byte, bool) {
-	if kind == "cut" {
-		m := message("ok")
-		return m[:len(m)-6], true
+func dataBody(cutpos string) func(kind string) ([]byte, bool) {
+	return func(kind string) ([]byte, bool) {
+		if kind == "cut" {
+			m := message("ok")
+			switch cutpos {
+			case "zero":
+				return nil, true
+			case "hdr":
+				return m[:strings.Index(string(m), "\r\n\r\n")+4], true
+			}
+			return m[:len(m)-6], true
+		}
+		return append(message(kind), ".\r\n"...), false
 	}
-	return append(message(kind), ".\r\n"...), false
 }
 
 func node(name string, args []string, children ...config.Node) config.Node {
 	return config.Node{Name: name, Args: args, Children: children}
 }
 
-func endpointConfig(c Cfg) []config.Node {
+func endpointConfig(c Cfg, bufDir string) []config.Node {
+	buf := []string{"ram"}
+	switch c.Buf {
+	case "fs":
+		buf = []string{"fs", bufDir}
+	case "autolo":
+		buf = []string{"auto", "16b", bufDir}
+	case "autohi":
+		buf = []string{"auto", "1M", bufDir}
+	}
 	srcLimit := "10"
 	if c.Hold {
 		srcLimit = "1"
@@ -254,7 +278,7 @@ func endpointConfig(c Cfg) []config.Node {
 		node("defer_sender_reject", []string{yn}),
 		node("max_received", []string{"2"}),
 		node("max_header_size", []string{"512b"}),
-		node("buffer", []string{"ram"}),
+		node("buffer", buf),
 		node("limits", nil,
 			node("all", []string{"concurrency", "10"}),
 			node("ip", []string{"concurrency", "10"}),
@@ -268,7 +292,7 @@ func runBehaviour(t *testing.T, b Behaviour, w io.Writer) {
 	synctest.Test(t, func(t *testing.T) {
 		tr := vtrace.New(w, b.ID)
 		tr.Emit("Cfg", vtrace.Ev{"lmtp": b.Cfg.Lmtp, "defer": b.Cfg.Defer, "nt": b.Cfg.Nt,
-			"shape": b.Cfg.Shape, "partial": b.Cfg.Partial, "hold": b.Cfg.Hold})
+			"shape": b.Cfg.Shape, "partial": b.Cfg.Partial, "hold": b.Cfg.Hold, "buf": b.Cfg.Buf, "cutpos": b.Cfg.CutPos})
 		cmds, plans := ScriptOf(b.Hist)
 		var targets []*scripted.NamedTarget
 		for i := 1; i <= b.Cfg.Nt; i++ {
@@ -301,7 +325,7 @@ func runBehaviour(t *testing.T, b Behaviour, w io.Writer) {
 		if os.Getenv("VERIF_DEBUG") != "" {
 			endp.Log = log.Logger{Out: log.WriterOutput(os.Stderr, false), Debug: true, Name: "endp"}
 		}
-		if err := endp.Init(config.NewMap(map[string]interface{}{}, config.Node{Children: endpointConfig(b.Cfg)})); err != nil {
+		if err := endp.Init(config.NewMap(map[string]interface{}{}, config.Node{Children: endpointConfig(b.Cfg, bufDir)})); err != nil {
 			t.Fatalf("endpoint init: %v", err)
 		}
 
@@ -314,7 +338,7 @@ func runBehaviour(t *testing.T, b Behaviour, w io.Writer) {
 			releaseHeld = rel
 		}
 
-		conn := &tapConn{tr: tr, script: cmds, lines: wire(b.Cfg.Lmtp), body: dataBody,
+		conn := &tapConn{tr: tr, script: cmds, lines: wire(b.Cfg.Lmtp), body: dataBody(b.Cfg.CutPos),
 			permits: endp.VerifSessionPermits, mode: "cmd", done: make(chan struct{})}
 		l := newOneListener(conn)
 		served := make(chan error, 1)
